@@ -143,7 +143,26 @@ def explore(make_execution, max_preemptions, budget=None, rng=None):
         stack.extend(reversed(children))
 
 
-def run_with_preemption(fn_a, fn_b, k, files, funcs=None):
+_OWNER = None
+
+
+def _owned_by(lock, ident):
+    """True / False when the owner of an RLock can be read from its repr, None otherwise."""
+    import re
+    m = re.search(r'owner=(\d+)', repr(lock))
+    if m:
+        return int(m.group(1)) == ident
+    return None
+
+
+def _free(lock):
+    if lock.acquire(blocking=False):
+        lock.release()
+        return True
+    return False
+
+
+def run_with_preemption(fn_a, fn_b, k, files, funcs=None, locks=()):
     """Cheap single-preemption schedule: thread A runs until it is about to execute its k-th traced
     source line (k = None: never), then B runs to completion, then A resumes.
     Returns (result_a, result_b, lines_a) where results are ('ok', value) / ('exc', repr)."""
@@ -187,8 +206,23 @@ def run_with_preemption(fn_a, fn_b, k, files, funcs=None):
     ta.start()
     reached.wait(60)
     tb.start()
-    # B runs to completion - unless it blocks on a lock that the paused A holds: then A goes on
-    tb.join(0.3)
+    # B runs to completion - unless it blocks on a lock that the paused A holds: then A goes on. (A is NOT resumed
+    # merely because B is slow: on a loaded machine that would turn the schedule into true concurrency, where
+    # switches inside functools / the interpreter are possible, which the property does not speak about.)
+    if locks:
+        waited = 0.0
+        while tb.is_alive() and waited < 60:
+            tb.join(0.05)
+            waited += 0.05
+            if not tb.is_alive():
+                break
+            owned = [_owned_by(lk, ta.ident) for lk in locks]
+            if any(o is True for o in owned) and waited >= 0.25:
+                break                      # the paused A holds a module lock: B is (or will be) waiting for it
+            if all(o is None for o in owned) and waited >= 0.3 and any(not _free(lk) for lk in locks):
+                break                      # plain Lock: no owner to read; held for a while
+    else:
+        tb.join(0.3)
     resume.set()
     ta.join(60)
     tb.join(60)
